@@ -1,0 +1,29 @@
+//go:build verif
+// +build verif
+
+// Machine-checked contracts for this package (checked by /verif/govc).
+// Comment-only: no executable code.
+
+package sdkutil
+
+//@ import sdk "github.com/cosmos/cosmos-sdk/types"
+
+// attribute lookup is first-match
+//@ func GetString
+//@   uses attrFirstRange, attrFirstStable, attrFirstHit
+//@   ensures [found] attrHas(attrs, key) ==> result1 == nil && result0 == attrVal(attrs, key)
+//@   ensures [missing] !attrHas(attrs, key) ==> result1 != nil
+//@   loop 1 invariant 0 <= iter && iter <= len(attrs) && attrFirst(attrs, key, iter) < 0
+//@ func GetUint64
+//@   ensures [ok] attrHas(attrs, key) && isDec(attrVal(attrs, key)) && atoi(attrVal(attrs, key)) < 18446744073709551616 ==> result1 == nil && result0 == atoi(attrVal(attrs, key))
+//@   ensures [bad] !(attrHas(attrs, key) && isDec(attrVal(attrs, key)) && atoi(attrVal(attrs, key)) < 18446744073709551616) ==> result1 != nil
+//@ func GetAccAddress
+//@   ensures [ok] attrHas(attrs, key) && validBech32(attrVal(attrs, key)) ==> result1 == nil && result0 == unbech32(attrVal(attrs, key))
+//@   ensures [bad] !(attrHas(attrs, key) && validBech32(attrVal(attrs, key))) ==> result1 != nil
+// an SDK event carries its module and action as attributes
+//@ func ParseEvent
+//@   ensures [ok] old(attrHas(sev.Attributes, "module") && attrHas(sev.Attributes, "action")) ==> result1 == nil && result0.Type == sev.Type
+//@        && result0.Module == old(attrVal(sev.Attributes, "module")) && result0.Action == old(attrVal(sev.Attributes, "action")) && result0.Attributes == sev.Attributes
+//@   ensures [bad] old(!(attrHas(sev.Attributes, "module") && attrHas(sev.Attributes, "action"))) ==> result1 != nil
+
+//@ property C16 := GetString#*, GetUint64#*, GetAccAddress#*, ParseEvent#*, lemma:attrFirstRange, lemma:attrFirstStable, lemma:attrFirstHit
